@@ -264,6 +264,12 @@ func c13PodRequestConv(pod *corev1.Pod, name corev1.ResourceName, conv func(*big
 	if initMax.Cmp(total) > 0 {
 		total.Set(initMax)
 	}
+	// pod-level resources (spec.resources, cpu/memory) are the pod's request when set
+	if pod.Spec.Resources != nil && (name == corev1.ResourceCPU || name == corev1.ResourceMemory) {
+		if _, ok := pod.Spec.Resources.Requests[name]; ok {
+			total = get(pod.Spec.Resources.Requests)
+		}
+	}
 	if pod.Spec.Overhead != nil {
 		total.Add(total, get(pod.Spec.Overhead))
 	}
@@ -557,9 +563,9 @@ var c13PrioTier = []int32{4999, 5000, 5001, 5500, 5998, 5999, 6000, 6999, 7000, 
 var c13PrioFar = []int32{0, 1, -1, 100, 3500, 4500, 6500, 8500, 9500, 1000000000, 2000001000, -2147483648, 2147483647}
 
 var c13CPUPool = []string{"1m", "0.0005", "500u", "1", "1.5", "2", "3", "4", "500m", "0.5", "250m", "750m", "999m", "1000m", "1001m", "1500m",
-	"2000m", "100m", "0.1", "1.0005", "1e3", "0", "16", "0.9995", "2500u", "1n", "1e-3", "12345678u"}
+	"2000m", "100m", "0.1", "1.0005", "1e3", "0", "16", "0.9995", "2500u", "1n", "1e-3", "12345678u", "1e6", "9e15", "64", "999999u"}
 var c13MemPool = []string{"1Gi", "1G", "1e3", "1.5Gi", "0", "128Mi", "1", "1000", "1Ki", "1000m", "1500m", "0.5", "4Gi", "1e9", "512Mi", "1536Mi",
-	"9007199254740993", "1Ti", "100M", "1e-1", "2Ei"}
+	"9007199254740993", "1Ti", "100M", "1e-1", "2Ei", "8Ei", "1e19", "1n"}
 var c13TierCPUPool = []string{"1000", "500", "1500", "1", "0", "2000", "1k", "250"}
 
 func c13Q(s string) resource.Quantity { return resource.MustParse(s) }
@@ -615,6 +621,24 @@ func c13GenResources(r *kit.Rand, beStyle bool) corev1.ResourceRequirements {
 			c13SetRes(r, &rr, tm, c13MemPool, r.Weighted(0, 30, 50, 20))
 		}
 	}
+	if r.Pct(7) { // resources the translation does not talk about
+		if rr.Requests == nil {
+			rr.Requests = corev1.ResourceList{}
+		}
+		if rr.Limits == nil {
+			rr.Limits = corev1.ResourceList{}
+		}
+		switch r.Intn(3) {
+		case 0:
+			rr.Requests[corev1.ResourceEphemeralStorage] = c13Q("1Gi")
+			rr.Limits[corev1.ResourceEphemeralStorage] = c13Q("2Gi")
+		case 1:
+			rr.Requests["example.com/widget"] = c13Q("2")
+			rr.Limits["example.com/widget"] = c13Q("2")
+		case 2:
+			rr.Limits["hugepages-2Mi"] = c13Q("4Mi")
+		}
+	}
 	if len(rr.Requests) == 0 {
 		rr.Requests = nil
 	}
@@ -656,7 +680,18 @@ func c13GenPod(r *kit.Rand) *corev1.Pod {
 		}
 	}
 	if r.Pct(15) {
-		pod.Labels[c13SubKey] = kit.Pick(r, []string{"0", "5500", "9999"})
+		pod.Labels[c13SubKey] = kit.Pick(r, []string{"0", "5500", "9999", "abc"})
+	}
+	// the namespace: the labelled one, an unlabelled one, or left empty in the object (then the
+	// request's namespace counts)
+	switch r.Weighted(77, 15, 8) {
+	case 1:
+		pod.Namespace = "other"
+	case 2:
+		pod.Namespace = ""
+	}
+	if r.Pct(30) {
+		pod.Labels["app"] = kit.Pick(r, []string{"a", "b"})
 	}
 	// labels the profiles select on / map from (never injected by a profile)
 	if r.Pct(70) {
@@ -672,15 +707,18 @@ func c13GenPod(r *kit.Rand) *corev1.Pod {
 		pod.Labels["app-pc"] = kit.Pick(r, []string{"koord-batch", "koord-mid", "koord-prod", "bogus"})
 	}
 	beStylePod := pod.Labels[c13QoSKey] == "BE" && r.Pct(30)
-	nc := []int{0, 1, 1, 1, 1, 1, 2, 2, 2, 2, 3, 3}[r.Intn(12)]
+	nc := r.Weighted(8, 40, 28, 12, 5, 4, 2, 1) // 0-6 containers, rarely 12
+	if nc == 7 {
+		nc = 12
+	}
 	for i := 0; i < nc; i++ {
 		pod.Spec.Containers = append(pod.Spec.Containers, corev1.Container{Name: fmt.Sprintf("c%d", i), Image: "img",
 			Resources: c13GenResources(r, beStylePod && r.Pct(85))})
 	}
-	ni := r.Weighted(55, 30, 15)
+	ni := r.Weighted(55, 27, 11, 4, 2, 1) // 0-5 init containers
 	for i := 0; i < ni; i++ {
 		ic := corev1.Container{Name: fmt.Sprintf("i%d", i), Image: "img", Resources: c13GenResources(r, beStylePod && r.Pct(85))}
-		if r.Pct(15) {
+		if r.Pct(20) {
 			p := corev1.ContainerRestartPolicyAlways
 			ic.RestartPolicy = &p
 		}
@@ -696,13 +734,41 @@ func c13GenPod(r *kit.Rand) *corev1.Pod {
 		}
 	}
 	// an extended-resource-spec annotation already on the object (stale, or written by the user)
-	switch r.Weighted(90, 4, 4, 2) {
+	if r.Pct(4) { // pod-level resources (spec.resources) covering the containers
+		pod.Spec.Resources = &corev1.ResourceRequirements{Requests: corev1.ResourceList{}}
+		for _, n := range []corev1.ResourceName{corev1.ResourceCPU, corev1.ResourceMemory} {
+			if n == corev1.ResourceMemory && r.Bool() {
+				continue
+			}
+			saved := pod.Spec.Overhead
+			pod.Spec.Overhead = nil
+			agg := c13PodRequestConv(pod, n, nil)
+			pod.Spec.Overhead = saved
+			agg.Add(agg, c13Rat(c13Q(kit.Pick(r, []string{"0", "500m", "1", "0.0005"}))))
+			nano := new(big.Rat).Mul(agg, new(big.Rat).SetInt64(1000000000))
+			if nano.IsInt() {
+				pod.Spec.Resources.Requests[n] = c13Q(nano.Num().String() + "n")
+			}
+		}
+	}
+	if r.Pct(20) {
+		pod.Annotations = map[string]string{"app-anno": "v"}
+	}
+	setAnno := func(v string) {
+		if pod.Annotations == nil {
+			pod.Annotations = map[string]string{}
+		}
+		pod.Annotations[c13AnnoKey] = v
+	}
+	switch r.Weighted(89, 3, 4, 2, 2) {
+	case 4:
+		setAnno(`{"containers":{"zz":{"requests":{"kubernetes.io/batch-memory":"1Gi"}},"i0":{"limits":{"kubernetes.io/batch-cpu":"1"}}}}`)
 	case 1:
-		pod.Annotations = map[string]string{c13AnnoKey: `{"containers":{"c0":{"requests":{"kubernetes.io/batch-cpu":"7"},"limits":{"kubernetes.io/batch-cpu":"7"}}}}`}
+		setAnno(`{"containers":{"c0":{"requests":{"kubernetes.io/batch-cpu":"7"},"limits":{"kubernetes.io/batch-cpu":"7"}}}}`)
 	case 2:
-		pod.Annotations = map[string]string{c13AnnoKey: `{}`}
+		setAnno(`{}`)
 	case 3:
-		pod.Annotations = map[string]string{c13AnnoKey: `{"containers":`}
+		setAnno(`{"containers":`)
 	}
 	return pod
 }
@@ -723,7 +789,14 @@ var c13ProfilePCNames = []string{"pc-7000", "pc-7500", "pc-7999", "pc-5000", "pc
 func c13GenProfile(r *kit.Rand, name string, wantMatch bool) *configv1alpha1.ClusterColocationProfile {
 	p := &configv1alpha1.ClusterColocationProfile{ObjectMeta: metav1.ObjectMeta{Name: name}}
 	// selectors; whether they match is decided by the pod's labels, wantMatch only biases
-	switch r.Weighted(25, 45, 15, 15) {
+	switch r.Weighted(23, 40, 13, 12, 4, 4, 4) {
+	case 4:
+		p.Spec.Selector = &metav1.LabelSelector{MatchExpressions: []metav1.LabelSelectorRequirement{{Key: "sel-a", Operator: metav1.LabelSelectorOpIn, Values: []string{"1", "2"}}}}
+	case 5:
+		p.Spec.Selector = &metav1.LabelSelector{MatchExpressions: []metav1.LabelSelectorRequirement{{Key: "sel-a", Operator: metav1.LabelSelectorOpNotIn, Values: []string{"2"}}}}
+	case 6:
+		p.Spec.Selector = &metav1.LabelSelector{MatchLabels: map[string]string{"sel-a": "1"},
+			MatchExpressions: []metav1.LabelSelectorRequirement{{Key: "sel-b", Operator: metav1.LabelSelectorOpDoesNotExist}}}
 	case 0:
 	case 1:
 		v := "1"
@@ -781,10 +854,26 @@ func c13GenProfile(r *kit.Rand, name string, wantMatch bool) *configv1alpha1.Clu
 			p.Spec.LabelKeysMapping = map[string]string{"app-pc": c13PCKey}
 		}
 	}
+	if r.Pct(8) {
+		p.Spec.AnnotationKeysMapping = map[string]string{"app-anno": "copied-anno-" + name}
+	}
+	if r.Pct(4) {
+		// appends on every application by design; the idempotence comparison leaves this label out
+		p.Spec.LabelSuffixes = map[string]string{"app": "-sfx"}
+	}
 	if r.Pct(20) {
 		p.Spec.SchedulerName = "koord-scheduler"
 	}
-	switch r.Weighted(70, 8, 8, 7, 7) {
+	switch r.Weighted(62, 8, 8, 7, 7, 4, 3, 1) {
+	case 5:
+		v := intstr.FromInt32(50)
+		p.Spec.Probability = &v
+	case 6:
+		v := intstr.FromString("30%")
+		p.Spec.Probability = &v
+	case 7:
+		v := intstr.FromString("abc")
+		p.Spec.Probability = &v
 	case 1:
 		v := intstr.FromInt32(100)
 		p.Spec.Probability = &v
@@ -838,13 +927,21 @@ func c13JSON(v any) []byte {
 }
 
 // c13Admit sends raw through the mutating handler and applies the returned patch.
-func c13Admit(ctx context.Context, h *PodMutatingHandler, raw []byte) (out []byte, pod *corev1.Pod, resp admission.Response, err error) {
+// The random draws behind fractional profile probabilities come from a stream that restarts with
+// the same seed at every admission, so a second admission meets the same skip decisions.
+func c13Admit(ctx context.Context, h *PodMutatingHandler, raw []byte, ns string, drawSeed uint64) (out []byte, pod *corev1.Pod, resp admission.Response, err error) {
 	req := admission.Request{AdmissionRequest: admissionv1.AdmissionRequest{
 		Resource:  metav1.GroupVersionResource{Group: "", Version: "v1", Resource: "pods"},
-		Operation: admissionv1.Create, Name: "p", Namespace: "default",
+		Operation: admissionv1.Create, Name: "p", Namespace: ns,
 		Object: runtime.RawExtension{Raw: raw},
 	}}
-	resp = h.Handle(ctx, req)
+	draws := kit.NewRand(drawSeed)
+	savedRand := randIntnFn
+	randIntnFn = func(n int) int { return draws.Intn(n) }
+	func() {
+		defer func() { randIntnFn = savedRand }()
+		resp = h.Handle(ctx, req)
+	}()
 	if !resp.Allowed {
 		return nil, nil, resp, nil
 	}
@@ -871,6 +968,18 @@ func c13Admit(ctx context.Context, h *PodMutatingHandler, raw []byte) (out []byt
 }
 
 var c13GatesRecorded bool
+
+// names that sort in a non-obvious way (application order is by name)
+var c13ProfileNames = []string{"prof-a", "prof-b", "prof-c", "prof-d", "prof-e", "prof-10", "prof-9", "prof-2", "a.prof", "zz-prof"}
+
+// c13EqualButSuffixedLabel: the two objects are semantically equal once the label that
+// labelSuffixes appends to is left out.
+func c13EqualButSuffixedLabel(a, b *corev1.Pod) bool {
+	a, b = a.DeepCopy(), b.DeepCopy()
+	delete(a.Labels, "app")
+	delete(b.Labels, "app")
+	return apiequality.Semantic.DeepEqual(a, b)
+}
 
 // c13SetGate sets one feature gate for the current case and returns the function that restores
 // the previous setting. Cases of one process run one after the other, so two settings never coexist.
@@ -905,17 +1014,22 @@ func TestVerifC13Mutating(t *testing.T) {
 
 	ctx := context.Background()
 	decoder := admission.NewDecoder(scheme.Scheme)
-	nsLabels := map[string]string{"colocation": "true"}
+	nsLabelsOf := map[string]map[string]string{"default": {"colocation": "true"}, "other": {}}
 	var base []client.Object
-	base = append(base, &corev1.Namespace{ObjectMeta: metav1.ObjectMeta{Name: "default", Labels: nsLabels}})
+	base = append(base, &corev1.Namespace{ObjectMeta: metav1.ObjectMeta{Name: "default", Labels: nsLabelsOf["default"]}})
+	base = append(base, &corev1.Namespace{ObjectMeta: metav1.ObjectMeta{Name: "other"}})
 	for _, pc := range c13PriorityClasses {
 		pp := corev1.PreemptLowerPriority
-		base = append(base, &schedulingv1.PriorityClass{ObjectMeta: metav1.ObjectMeta{Name: pc.name}, Value: pc.value, PreemptionPolicy: &pp})
+		pcObj := &schedulingv1.PriorityClass{ObjectMeta: metav1.ObjectMeta{Name: pc.name}, Value: pc.value, PreemptionPolicy: &pp}
+		if len(base)%3 == 0 {
+			pcObj.PreemptionPolicy = nil
+		}
+		base = append(base, pcObj)
 	}
 	vh := &validating.PodValidatingHandler{Client: fake.NewClientBuilder().WithScheme(scheme.Scheme).Build(), Decoder: decoder}
 
 	kit.Run(t, kit.Config{Property: "C13", Unit: "mutating", Quick: 5000, Thorough: 400000,
-		Rule: "one pod + profile set per case: QoS label in {absent, LSE, LSR, LS, BE, SYSTEM, junk}, spec.priority nil / class edges +-1 / mid and batch ranges / gaps / extremes, priority-class label (known or junk), 0-3 containers and 0-2 init containers (sidecars) with native and directly written tier quantities from a boundary pool (1m, 0.0005, 500u, 1n, 1.5, 1e3, 1Gi, 1G, 2Ei, ...), request only / both / limit without request, overhead, stale or broken summary annotation; 0-3 matching + 0-2 non-matching ClusterColocationProfiles (pod and namespace selectors; QoS class, PriorityClass at every class edge, priority-class / QoS labels, label-key mapping, strategic-merge patch, probability 0/100, skip-update-resources) applied in name order; the feature gates ColocationProfileSkipMutatingResources, DisableExtendedResourceSpec and DisableDeviceResourceSpec are each switched on in 8% of the cases and restored. distinct = (final QoS, final class, tier source, #matched, translation outcome, shape of the resources (native / tier / limit-only / overhead / init), annotation state); non-trivial = a pod that is translated and has a native cpu or memory entry, or that already carries tier entries",
+		Rule: "one pod + profile set per case: QoS label in {absent, LSE, LSR, LS, BE, SYSTEM, junk}, spec.priority nil / class edges +-1 / mid and batch ranges / gaps / extremes, priority-class label (known or junk), 0-3 containers and 0-2 init containers (sidecars) with native and directly written tier quantities from a boundary pool (1m, 0.0005, 500u, 1n, 1.5, 1e3, 1Gi, 1G, 2Ei, ...), request only / both / limit without request, overhead, other resource names, pod-level spec.resources (4%), rarely 4-6 or 12 containers and 3-5 init containers, CPU up to 9e15 and memory up to 1e19, stale or broken summary annotation; 0-6 matching + 0-2 non-matching ClusterColocationProfiles with names that sort unusually (pod and namespace selectors incl. In/NotIn/DoesNotExist; pod in a labelled / unlabelled namespace or with the namespace left empty in the object; fractional probabilities with a reproducible draw stream, labelSuffixes, annotation-key mapping; QoS class, PriorityClass at every class edge, priority-class / QoS labels, label-key mapping, strategic-merge patch, probability 0/100, skip-update-resources) applied in name order; the feature gates ColocationProfileSkipMutatingResources, DisableExtendedResourceSpec and DisableDeviceResourceSpec are each switched on in 8% of the cases and restored. distinct = (final QoS, final class, tier source, #matched, translation outcome, shape of the resources (native / tier / limit-only / overhead / init), annotation state); non-trivial = a pod that is translated and has a native cpu or memory entry, or that already carries tier entries",
 	}, func(c *kit.Case) {
 		r := c.R
 		if !c13GatesRecorded {
@@ -931,13 +1045,25 @@ func TestVerifC13Mutating(t *testing.T) {
 			}
 		}
 		pod0 := c13GenPod(r)
-		nMatch := r.Weighted(10, 50, 28, 12)
+		nMatch := r.Weighted(10, 47, 26, 10, 3, 2, 2) // 0-6 profiles meant to match
 		nOther := r.Weighted(60, 30, 10)
-		order := r.Perm(5)
+		order := r.Perm(len(c13ProfileNames))
 		var profiles []*configv1alpha1.ClusterColocationProfile
 		for i := 0; i < nMatch+nOther; i++ {
-			profiles = append(profiles, c13GenProfile(r, fmt.Sprintf("prof-%c", 'a'+order[i]), i < nMatch))
+			profiles = append(profiles, c13GenProfile(r, c13ProfileNames[order[i]], i < nMatch))
 		}
+		// the namespace the request is for: the object's, or "default"/"other" when the object leaves it empty
+		reqNS := pod0.Namespace
+		if reqNS == "" {
+			reqNS = kit.Pick(r, []string{"default", "default", "other"})
+			c.Count("m_pods_without_namespace_in_object", 1)
+		}
+		if reqNS == "other" {
+			c.Count("m_pods_in_unlabelled_namespace", 1)
+		}
+		nsLabels := nsLabelsOf[reqNS]
+		drawSeed := r.Uint64()
+		labelSuffix := false
 		objs := append([]client.Object(nil), base...)
 		var matched []string
 		skipRes := false
@@ -947,6 +1073,9 @@ func TestVerifC13Mutating(t *testing.T) {
 				matched = append(matched, p.Name)
 				if _, ok := p.Annotations[c13SkipResKey]; ok {
 					skipRes = true
+				}
+				if len(p.Spec.LabelSuffixes) > 0 {
+					labelSuffix = true
 				}
 			}
 		}
@@ -958,7 +1087,7 @@ func TestVerifC13Mutating(t *testing.T) {
 		for _, p := range profiles {
 			c.Op("profile=%s", c13JSON(p))
 		}
-		c.Op("matched=%v skip-update-resources=%v", matched, skipRes)
+		c.Op("request namespace=%s matched=%v skip-update-resources=%v", reqNS, matched, skipRes)
 		// gate setting of this case (drawn after the objects, so the objects do not depend on it)
 		skipMutGate, noAnnoGate, noDevGate := r.Pct(8), r.Pct(8), r.Pct(8)
 		defer c13SetGate(c, features.ColocationProfileSkipMutatingResources, skipMutGate)()
@@ -975,7 +1104,7 @@ func TestVerifC13Mutating(t *testing.T) {
 			c.Count("m_cases_gate_DisableDeviceResourceSpec_on", 1)
 		}
 
-		raw1, pod1, resp, err := c13Admit(ctx, h, raw0)
+		raw1, pod1, resp, err := c13Admit(ctx, h, raw0, reqNS, drawSeed)
 		if err != nil {
 			c.Harness("cannot apply the handler's patch: %v", err)
 		}
@@ -991,6 +1120,8 @@ func TestVerifC13Mutating(t *testing.T) {
 				c.Count("m_handler_error_missing_priorityclass", 1)
 			case strings.Contains(msg, "extended resource spec"):
 				c.Count("m_handler_error_broken_annotation", 1)
+			case strings.Contains(msg, "invalid value for IntOrString") || strings.Contains(msg, "abc"):
+				c.Count("m_handler_error_invalid_probability", 1)
 			default:
 				c.Count("m_handler_error_other", 1)
 			}
@@ -1118,7 +1249,7 @@ func TestVerifC13Mutating(t *testing.T) {
 		}
 
 		// idempotence: admit the result again
-		raw2, pod2, resp2, err := c13Admit(ctx, h, raw1)
+		raw2, pod2, resp2, err := c13Admit(ctx, h, raw1, reqNS, drawSeed)
 		if err != nil {
 			c.Harness("cannot apply the handler's second patch: %v", err)
 		}
@@ -1132,6 +1263,9 @@ func TestVerifC13Mutating(t *testing.T) {
 				c.Fail("C13/idempotence/second-admission-refused", "admitting the mutated pod again fails: %s\npod=%s\nmutated=%s", msg, raw0, raw1)
 			}
 			c.Count("m_idempotence_untranslated_second_admission_refused", 1)
+		} else if labelSuffix && !apiequality.Semantic.DeepEqual(pod1, pod2) && c13EqualButSuffixedLabel(pod1, pod2) {
+			// labelSuffixes appends on every application by design; everything else is equal
+			c.Count("m_idempotence_equal_except_suffixed_label", 1)
 		} else if !apiequality.Semantic.DeepEqual(pod1, pod2) {
 			c.Op("second admission=%s", raw2)
 			if translatedTier != "" {
@@ -1152,7 +1286,7 @@ func TestVerifC13Mutating(t *testing.T) {
 		// re-validation of the mutated pod by the real validating handler
 		vresp := vh.Handle(ctx, admission.Request{AdmissionRequest: admissionv1.AdmissionRequest{
 			Resource:  metav1.GroupVersionResource{Group: "", Version: "v1", Resource: "pods"},
-			Operation: admissionv1.Create, Name: "p", Namespace: "default", Object: runtime.RawExtension{Raw: raw1}}})
+			Operation: admissionv1.Create, Name: "p", Namespace: reqNS, Object: runtime.RawExtension{Raw: raw1}}})
 		brokenA, brokenB := c13Protocol(pod1, false), c13Protocol(pod1, true)
 		c.Count("m_revalidations", 1)
 		if vresp.Allowed {
@@ -1191,6 +1325,17 @@ func TestVerifC13Mutating(t *testing.T) {
 			} else {
 				c.Count("converse_misses_m_translated_be_pod_revalidation_denied", 1)
 			}
+		}
+
+		if pod0.Spec.Resources != nil && translatedTier != "" {
+			// the statement talks about containers and the overhead; a native pod-level request is not decided
+			c.Count("m_translated_pods_with_pod_level_resources", 1)
+		}
+		if len(pod0.Spec.Containers) > 3 || len(pod0.Spec.InitContainers) > 2 {
+			c.Count("m_pods_with_many_containers", 1)
+		}
+		if len(matched) > 3 {
+			c.Count("m_cases_with_more_than_3_matching_profiles", 1)
 		}
 
 		// shape evidence
